@@ -55,7 +55,13 @@ func DefaultWeights() Weights {
 
 // Gen draws operations. All randomness comes from rapid draws.
 type Gen struct {
-	W Weights
+	// burst: number of bids still to be placed on burstAuction (a crowded order book: more bids
+	// than the sizes at which sort implementations switch algorithm, every account bidding)
+	burst        int
+	burstAuction uint64
+	// maxAuctions: per-history limit (W.MaxAuctions, or 12 for the occasional crowded history)
+	maxAuctions int
+	W            Weights
 	// Labels counts generator classes for the evidence file.
 	Labels map[string]int
 }
@@ -234,6 +240,11 @@ func (g *Gen) Prologue(t *rapid.T) []Op {
 	if g.W.Hooks {
 		ops = append(ops, genHooksOp(t))
 	}
+	g.maxAuctions = g.W.MaxAuctions
+	if pct(t, 6, "many-auctions") {
+		g.maxAuctions = 12 // more auctions alive at once than the usual 3-5
+		g.label("history:up-to-12-auctions")
+	}
 	// parameters
 	fee := pick(t, "creation-fee", []string{"", "100000000stake", "7stake", "3paya,5stake", "2paya"})
 	bidFee := pick(t, "bid-fee", []string{"", "", "1stake", "2paya", "1payb,4stake"})
@@ -324,12 +335,12 @@ func (g *Gen) Next(t *rapid.T, w *World, s *Snap) Op {
 	if g.W.UpperPct > 0 {
 		switch o.Kind {
 		case OpCreateFixed, OpCreateBatch, OpCancel, OpPlaceBid, OpModifyBid, OpMsgAddAllowed:
-			if o.SignerStr == "" && o.Signer >= 0 && o.Signer < NumAccounts && pct(t, g.W.UpperPct, "upper-case-signer") {
+			if o.SignerStr == "" && o.Signer >= 0 && o.Signer < len(Addrs) && pct(t, g.W.UpperPct, "upper-case-signer") {
 				o.SignerStr = strings.ToUpper(Addrs[o.Signer].String())
 				g.label("address-written-in-upper-case")
 			}
 		case OpAddAllowed:
-			if o.BidderStr == "" && o.Bidder >= 0 && o.Bidder < NumAccounts && pct(t, g.W.UpperPct, "upper-case-bidder") {
+			if o.BidderStr == "" && o.Bidder >= 0 && o.Bidder < len(Addrs) && pct(t, g.W.UpperPct, "upper-case-bidder") {
 				o.BidderStr = strings.ToUpper(Addrs[o.Bidder].String())
 				g.label("address-written-in-upper-case")
 			}
@@ -347,6 +358,29 @@ func (g *Gen) Next(t *rapid.T, w *World, s *Snap) Op {
 }
 
 func (g *Gen) next(t *rapid.T, w *World, s *Snap) Op {
+	if g.burst > 0 {
+		g.burst--
+		if a := s.Auction(g.burstAuction); a != nil && a.Status == types.AuctionStatusStarted {
+			// the crowd: further accounts are allow-listed as the burst goes on
+			if n := len(s.AllowedOf(a.ID)); n < 14 && pct(t, 40, "burst-new-bidder") {
+				idx := NumAccounts + uni(t, "burst-crowd", NumCrowd)
+				if s.Cap(a.ID, Addrs[idx].String()) == nil {
+					max := floorDiv(a.SellAmt, bi(int64(1+uni(t, "burst-cap-div", 6))))
+					if max.Sign() <= 0 {
+						max = bi(1)
+					}
+					return Op{Kind: OpAddAllowed, Auction: a.ID, Bidder: idx, MaxBid: max.String()}
+				}
+			}
+			return g.genPlaceBidOn(t, w, s, a)
+		}
+		g.burst = 0
+	}
+	if open := auctionsWith(s, func(a *Auc) bool { return a.Status == types.AuctionStatusStarted }); len(open) > 0 && g.W.PlaceBid > 0 && pct(t, 1, "bid-burst") {
+		a := pick(t, "burst-auction", open)
+		g.burst, g.burstAuction = 13+uni(t, "burst-len", 18), a.ID
+		g.label("history:bid-burst(13-30 bids on one auction)")
+	}
 	type choice struct {
 		kind string
 		wt   int
@@ -354,7 +388,11 @@ func (g *Gen) next(t *rapid.T, w *World, s *Snap) Op {
 	nA := len(s.Auctions)
 	open := auctionsWith(s, func(a *Auc) bool { return a.Status == types.AuctionStatusStarted })
 	var cs []choice
-	if nA < g.W.MaxAuctions {
+	maxA := g.maxAuctions
+	if maxA == 0 {
+		maxA = g.W.MaxAuctions
+	}
+	if nA < maxA {
 		cs = append(cs, choice{OpCreateFixed, g.W.CreateFixed}, choice{OpCreateBatch, g.W.CreateBatch})
 	}
 	if nA > 0 {
@@ -879,7 +917,10 @@ func (g *Gen) bidTarget(t *rapid.T, s *Snap, label string, batchOnly bool) *Auc 
 }
 
 func (g *Gen) genPlaceBid(t *rapid.T, w *World, s *Snap) Op {
-	a := g.bidTarget(t, s, "bid-auction", false)
+	return g.genPlaceBidOn(t, w, s, g.bidTarget(t, s, "bid-auction", false))
+}
+
+func (g *Gen) genPlaceBidOn(t *rapid.T, w *World, s *Snap, a *Auc) Op {
 	o := Op{Kind: OpPlaceBid, Auction: a.ID}
 	// bidder: prefer an allow-listed one
 	allowed := s.AllowedOf(a.ID)
